@@ -203,6 +203,10 @@ pub enum Pay {
     U64,
     U128,
     PB,
+    /// 1 KiB tagged payload
+    PBIG,
+    /// 64 bytes, 64-byte aligned, tagged
+    PA64,
 }
 impl Pay {
     pub fn name(self) -> &'static str {
@@ -221,6 +225,8 @@ impl Pay {
             Pay::U64 => "u64",
             Pay::U128 => "u128",
             Pay::PB => "PB",
+            Pay::PBIG => "PBIG",
+            Pay::PA64 => "PA64",
         }
     }
 }
@@ -412,7 +418,7 @@ impl Case {
         for c in cfg.iter_mut() {
             *c = next(&mut i);
         }
-        let nt = (next(&mut i) % 5) as usize;
+        let nt = (next(&mut i) % 7) as usize;
         let mut threads = Vec::new();
         for _ in 0..nt {
             let n = (next(&mut i) % 9) as usize;
